@@ -135,4 +135,14 @@ theorem C16_unfixed_false :
     (ruleList true (tokenize (Utf8.decodeRunes (witness ++ [123, 125])))).length = 2 := by
   decide
 
+
+/-- the reviewed tree of `cssStringPattern` (strings end at LF, FF or CR — CSS newlines — and may contain
+    backslash escapes of anything): the regenerated regex must be exactly this tree. Editing the regex in
+    stylesheet.go breaks this obligation; the directed search then looks for a selector that fails the oracle. -/
+def reviewedCssStringPattern : Rx.Re :=
+  (.alt (.cat (.cls [(34, 34)]) (.cat (.star (.cap 1 (.alt (.cls [(0, 9), (11, 11), (14, 33), (35, 91), (93, 1114111)]) (.cat (.cls [(92, 92)]) (.cls [(0, 1114111)])))) true) (.cls [(34, 34)]))) (.cat (.cls [(39, 39)]) (.cat (.star (.cap 2 (.alt (.cls [(0, 9), (11, 11), (14, 38), (40, 91), (93, 1114111)]) (.cat (.cls [(92, 92)]) (.cls [(0, 1114111)])))) true) (.cls [(39, 39)]))))
+
+theorem rx_cssStringPattern_reviewed :
+    SafeHtml.Generated.Regexes.safehtml_cssStringPattern = reviewedCssStringPattern := by decide
+
 end SafeHtml.Props.C16
